@@ -6,12 +6,14 @@ import (
 	"fmt"
 	"os"
 
+	"verif/harness/cachex"
 	"verif/harness/clockx"
 	"verif/harness/forge"
 	"verif/harness/identx"
 	"verif/harness/idsx"
 	"verif/harness/page"
 	"verif/harness/queryx"
+	"verif/harness/removex"
 	"verif/harness/sigx"
 	"verif/harness/snapx"
 	"verif/harness/world"
@@ -19,6 +21,8 @@ import (
 
 var commands = map[string]func(args []string){
 	"page":                page.Run,
+	"cache":               cachex.Run,
+	"cache-worker":        cachex.Worker,
 	"clock":               clockx.Run,
 	"forge":               forge.Run,
 	"forge-worker":        forge.Worker,
@@ -33,6 +37,8 @@ var commands = map[string]func(args []string){
 	"ident-worker":        identx.Worker,
 	"ident-fields":        identx.FieldsCmd,
 	"ident-fields-worker": identx.FieldsWorker,
+	"remove":              removex.Run,
+	"remove-worker":       removex.Worker,
 	"sig":                 sigx.Run,
 	"sig-worker":          sigx.Worker,
 	"world":               world.RunCmd,
